@@ -29,7 +29,7 @@ ASSUMPTIONS = [
 ]
 MANDATORY = ["join:outer", "join:inner", "sort:True", "axis:given", "rel:permuted", "rel:overlapping", "rel:disjoint", "rel:subset",
              "input:dataset", "input:scalar", "dim-in-one-input-only", "all-sorted-inc", "all-sorted-dec", "labels:int-vs-float", "labels:s",
-             "sort-on-unsorted", "inner:ordered-result-len>=2", "outer:ordered-result-len>=2", "no-fill:dtype-kept:i"]
+             "sort-on-unsorted", "inner:ordered-result-len>=2", "outer:ordered-result-len>=2", "no-fill:dtype-kept:i", "inputs:aligned-before-under-other-labels"]
 
 
 def budget(tier):
@@ -64,7 +64,8 @@ def align_case(draw, allow_empty=False):
     axis = None
     if alld and draw(st.integers(0, 3)) == 0:
         axis = draw(st.sampled_from(alld))
-    return {"inputs": inputs, "join": draw(st.sampled_from(["outer", "outer", "inner"])), "sort": draw(st.sampled_from([False, False, True])), "axis": axis}
+    return {"inputs": inputs, "join": draw(st.sampled_from(["outer", "outer", "inner"])), "sort": draw(st.sampled_from([False, False, True])), "axis": axis,
+            "rehearse": draw(st.integers(0, 3)) == 0}
 
 
 def strategy(tier):
@@ -162,7 +163,26 @@ def run_case(case):
     da = core.env.import_dimarray()
     inputs, join, sort, axis = case["inputs"], case["join"], case["sort"], case["axis"]
     objs, snaps = [], []
-    for inp in inputs:
+    rehearse = bool(case.get("rehearse"))
+    if rehearse:
+        # the SAME array objects were aligned before, under other labels (same kinds, reverse order) and other values, and then relabelled
+        # and overwritten in place: whatever that first alignment left on them or on their axes must not matter now
+        pre = [core.build_initial(inp["spec"]) if inp["t"] == "a" else (core.build_dataset(inp["spec"]) if inp["t"] == "ds" else inp["v"]) for inp in inputs]
+        for kw0 in (dict(join=join, sort=sort), dict(join="outer"), dict(join="inner", sort=True)):
+            try:
+                with np.errstate(all="ignore"):
+                    da.align(list(pre), **kw0)
+            except Exception:
+                pass
+        for inp, o in zip(inputs, pre):
+            if inp["t"] == "a":
+                core.finalise(o, inp["spec"])
+    for k_, inp in enumerate(inputs):
+        if rehearse:
+            o = pre[k_]
+            snaps.append(core.snapshot(o) if inp["t"] == "a" else (core.snapshot_dataset(o) if inp["t"] == "ds" else None))
+            objs.append(o)
+            continue
         if inp["t"] == "a":
             o = core.build(inp["spec"])
             snaps.append(core.snapshot(o))
@@ -284,4 +304,6 @@ def run_case(case):
             check(isinstance(out, da.DimArray) and out.ndim == 0 and core.same_scalar(out.values.item(), inp["v"]), "scalar-input", {"what": what, "got": core.brief(out)}, sig)
     if empty_axis:
         cl.add("empty-axis")
+    if rehearse:
+        cl.add("inputs:aligned-before-under-other-labels")
     return {"classes": sorted(cl), "nontrivial": nontrivial}
